@@ -475,6 +475,33 @@ impl JitCompiler {
         }
     }
 
+    // LD_ABS_* / LD_IND_*: load from mem + zero-extended imm (+ src) into RAX. R12 is a constant
+    // pointer to mem; it cannot be used as a base register without a SIB byte, so the address is
+    // built in R11. The immediate is an unsigned 32-bit offset, as in the interpreter: a negative
+    // value must not be used as an x86 displacement, which the CPU would sign-extend.
+    fn emit_packet_load(
+        &mut self,
+        mem: &mut JitMemory,
+        size: OperandSize,
+        src: Option<u8>,
+        imm: i32,
+    ) {
+        if imm >= 0 {
+            self.emit_mov(mem, R12, R11); // load mem into R11
+            if let Some(src) = src {
+                self.emit_alu64(mem, 0x01, src, R11); // add src to R11
+            }
+            self.emit_load(mem, size, R11, RAX, imm); // ld R0, mem[src+imm]
+        } else {
+            self.emit_alu32_imm32(mem, 0xc7, 0, R11, imm); // mov imm into R11d (zero-extends)
+            self.emit_alu64(mem, 0x01, R12, R11); // add mem to R11
+            if let Some(src) = src {
+                self.emit_alu64(mem, 0x01, src, R11); // add src to R11
+            }
+            self.emit_load(mem, size, R11, RAX, 0);
+        }
+    }
+
     fn emit_local_call(&mut self, mem: &mut JitMemory, target_pc: isize, frame_size: u16) {
         self.emit_push(mem, map_register(6));
         self.emit_push(mem, map_register(7));
@@ -594,44 +621,14 @@ impl JitCompiler {
             let _ = match insn.opc {
 
                 // BPF_LD class
-                // R12 is a constant pointer to mem. It cannot be used as a base register without a
-                // SIB byte, so it is copied to R11 first.
-                ebpf::LD_ABS_B  => {
-                    self.emit_mov(mem, R12, R11);
-                    self.emit_load(mem, OperandSize::S8,  R11, RAX, insn.imm);
-                }
-                ebpf::LD_ABS_H  => {
-                    self.emit_mov(mem, R12, R11);
-                    self.emit_load(mem, OperandSize::S16, R11, RAX, insn.imm);
-                }
-                ebpf::LD_ABS_W  => {
-                    self.emit_mov(mem, R12, R11);
-                    self.emit_load(mem, OperandSize::S32, R11, RAX, insn.imm);
-                }
-                ebpf::LD_ABS_DW => {
-                    self.emit_mov(mem, R12, R11);
-                    self.emit_load(mem, OperandSize::S64, R11, RAX, insn.imm);
-                }
-                ebpf::LD_IND_B   => {
-                    self.emit_mov(mem, R12, R11);                              // load mem into R11
-                    self.emit_alu64(mem, 0x01, src, R11);                      // add src to R11
-                    self.emit_load(mem, OperandSize::S8,  R11, RAX, insn.imm); // ld R0, mem[src+imm]
-                }
-                ebpf::LD_IND_H   => {
-                    self.emit_mov(mem, R12, R11);                              // load mem into R11
-                    self.emit_alu64(mem, 0x01, src, R11);                      // add src to R11
-                    self.emit_load(mem, OperandSize::S16, R11, RAX, insn.imm); // ld R0, mem[src+imm]
-                }
-                ebpf::LD_IND_W   => {
-                    self.emit_mov(mem, R12, R11);                              // load mem into R11
-                    self.emit_alu64(mem, 0x01, src, R11);                      // add src to R11
-                    self.emit_load(mem, OperandSize::S32, R11, RAX, insn.imm); // ld R0, mem[src+imm]
-                }
-                ebpf::LD_IND_DW  => {
-                    self.emit_mov(mem, R12, R11);                              // load mem into R11
-                    self.emit_alu64(mem, 0x01, src, R11);                      // add src to R11
-                    self.emit_load(mem, OperandSize::S64, R11, RAX, insn.imm); // ld R0, mem[src+imm]
-                }
+                ebpf::LD_ABS_B   => self.emit_packet_load(mem, OperandSize::S8,  None, insn.imm),
+                ebpf::LD_ABS_H   => self.emit_packet_load(mem, OperandSize::S16, None, insn.imm),
+                ebpf::LD_ABS_W   => self.emit_packet_load(mem, OperandSize::S32, None, insn.imm),
+                ebpf::LD_ABS_DW  => self.emit_packet_load(mem, OperandSize::S64, None, insn.imm),
+                ebpf::LD_IND_B   => self.emit_packet_load(mem, OperandSize::S8,  Some(src), insn.imm),
+                ebpf::LD_IND_H   => self.emit_packet_load(mem, OperandSize::S16, Some(src), insn.imm),
+                ebpf::LD_IND_W   => self.emit_packet_load(mem, OperandSize::S32, Some(src), insn.imm),
+                ebpf::LD_IND_DW  => self.emit_packet_load(mem, OperandSize::S64, Some(src), insn.imm),
 
                 ebpf::LD_DW_IMM  => {
                     insn_ptr += 1;
